@@ -1,5 +1,6 @@
 """C10 - incarnation discipline, self-refutation and reaction to one's own death."""
 from .lib import query as q
+from . import common as _cmn
 from .lib.effects import Effects
 from .lib.facts import strip_generics
 from .lib.symx import show
@@ -86,8 +87,8 @@ def r1_writers(ctx, f, rep, eff):
                 g = False
                 for c in q.conds_before(p, i):
                     es = q.eq_sides(c['expr'])
-                    if es and q.is_self_field_load(es[1], 'connection_state') and q.is_variant(es[2], 'ConnectionState', 'Undead'):
-                        g = (q.cond_truth(c) == es[0])
+                    if q.conn_state_test(f, c, 'Undead') is not None:
+                        g = q.conn_state_test(f, c, 'Undead')
                 rep.check(g, 'C10-R1', rb.nname, 'reuse_down_identity resets only when Undead', construct='reuse-guard')
 
 
@@ -233,7 +234,7 @@ def r3_no_fabrication(ctx, f, rep):
                 if e['res'] == 'Foca::serialize_member' and e['tblock'] == bi and (cb.nname, bi) not in done:
                     done.add((cb.nname, bi))
                     n += 1
-                    m = e['args'][1]
+                    m = _cmn.member_arg(f, e)
                     if cb.nname == 'Foca::handle_apply_summary':
                         good = m == ('param', 0, 3)
                         what = 'the applied update itself is what gets gossiped'
@@ -314,8 +315,8 @@ def r4_rejoin_or_defunct(ctx, f, rep):
         conn = None
         for c in p.conds():
             es = q.eq_sides(c['expr'])
-            if es and q.is_self_field_load(es[1], 'connection_state') and q.is_variant(es[2], 'ConnectionState', 'Connected'):
-                conn = (q.cond_truth(c) == es[0])
+            if q.conn_state_test(f, c, 'Connected') is not None:
+                conn = q.conn_state_test(f, c, 'Connected')
         if active is False or (active is True and conn is True):
             n_tu += 1
             hs = [e for e in p.calls() if e['res'] == 'Foca::handle_self_update' and q.is_variant(e['args'][2], 'State', 'Down')]
@@ -397,7 +398,7 @@ def r4_rejoin_or_defunct(ctx, f, rep):
         if was_undead is False:
             good = good and len(aor) == 1 and len(ser) == 1
             if good:
-                m = ser[0]['args'][1]
+                m = _cmn.member_arg(f, ser[0])
                 good = m[0] == 'agg' and q.is_variant(q.agg_field(m, 'state'), 'State', 'Down') and \
                     q.agg_field(m, 'id') == ('load', q.self_field('identity'), 0)
                 key = aor[0]['args'][1]
